@@ -1,12 +1,14 @@
 #!/bin/bash
 # confirm a seeded change in its scratch worktree: demo fails with the change, passes without, suite passes with it
 # usage: confirm_seed.sh <worktree> <demo test target> [cargo feature flags]
+# (no `git stash`: the stash stack is shared between worktrees)
 WT=$1; DEMO=$2; FEAT=$3
 cd $WT || exit 2
 export CARGO_NET_OFFLINE=true
+git diff --quiet -- src && git apply seeded.diff
 echo "== demo WITH change"; cargo test --offline $FEAT --test $DEMO 2>&1 | grep -E "^test result|^test .* (ok|FAILED)|error(\[|:)" | head -20
 echo "== existing suite WITH change"; cargo test --workspace --no-fail-fast --offline 2>&1 | grep -E "^test result|FAILED" | head -20
-git stash push -q -- src
+git apply -R seeded.diff
 echo "== demo WITHOUT change"; cargo test --offline $FEAT --test $DEMO 2>&1 | grep -E "^test result|^test .* (ok|FAILED)|error(\[|:)" | head -20
-git stash pop -q
+git apply seeded.diff
 echo "== done"
